@@ -6,6 +6,11 @@
 //! sep    ∈ { '\', '/' }   chosen independently for every gap
 //! prefix ∈ PREFIXES (6): none | `\`ANCHOR`\` | `/`ANCHOR`/` | `C:` | `C:\`ANCHOR`\` | `C:/`ANCHOR`/`
 //!
+//! Leading-separator runs (`lead_runs`): prefix := [`C:`] run ANCHOR' last(run), run ∈ {`\`,`/`}^2 ∪
+//! {`\`,`/`}^3 (all 12 mixes: `\\`, `//`, `\/`, `/\`, `\\\`, ... = UNC style / empty leading components),
+//! ANCHOR' = the anchor spelled with the last separator of the run.  A tool that strips ONE
+//! leading separator still holds an absolute path that points at the anchor inside the jail.
+//!
 //! SAFETY of the grammar: a *rooted* name (leading separator, with or without a drive letter) is
 //! always rooted at ANCHOR, a directory that lies deep inside the per-case jail, so that a tool
 //! that honours (or strips down to) the root writes inside the scratch directory.  For the two
@@ -17,7 +22,13 @@
 pub const FULL: [&str; 10] = ["..", "a", "", ".", "B.txt", "C:", "con", "<x*251>", "\u{fc}", " "];
 pub const CORE: [&str; 4] = ["..", "a", "", "B.txt"];
 pub const SEPS: [char; 2] = ['\\', '/'];
-pub const PREFIXES: [&str; 6] = ["none", "root-backslash", "root-slash", "drive", "drive-root-backslash", "drive-root-slash"];
+pub const PREFIXES: [&str; 8] = ["none", "root-backslash", "root-slash", "drive", "drive-root-backslash", "drive-root-slash", "root-run", "drive-root-run"];
+/// the prefixes of the base grammar (`enumerate`); the two `-run` prefixes belong to `lead_runs`
+pub const BASE_PREFIXES: usize = 6;
+pub const P_RUN: usize = 6;
+pub const P_DRIVE_RUN: usize = 7;
+/// lengths of the leading-separator runs of `lead_runs`
+pub const RUN_LENS: [usize; 2] = [2, 3];
 
 /// directories below the jail root at which rooted names are anchored
 pub const ANCHOR_REL: [&str; 5] = ["abs", "d1", "d2", "d3", "d4"];
@@ -25,6 +36,8 @@ pub const ANCHOR_REL: [&str; 5] = ["abs", "d1", "d2", "d3", "d4"];
 #[derive(Clone, Debug)]
 pub struct NameSpec {
     pub prefix: usize,
+    /// the leading-separator run (indices into SEPS, 2 or 3 of them) of the `-run` prefixes, else empty
+    pub lead: Vec<usize>,
     /// component classes (indices into FULL)
     pub comps: Vec<usize>,
     /// separators between components (indices into SEPS), len = comps.len()-1
@@ -41,10 +54,14 @@ fn comp_text(c: usize) -> String {
 
 impl NameSpec {
     pub fn rooted(&self) -> bool {
-        matches!(self.prefix, 1 | 2 | 4 | 5)
+        matches!(self.prefix, 1 | 2 | 4 | 5 | P_RUN | P_DRIVE_RUN)
     }
     pub fn drive(&self) -> bool {
-        self.prefix >= 3
+        matches!(self.prefix, 3 | 4 | 5 | P_DRIVE_RUN)
+    }
+    /// the leading run as text (`\/\`), empty for the base prefixes
+    pub fn lead_text(&self) -> String {
+        self.lead.iter().map(|&k| SEPS[k]).collect()
     }
     pub fn dotdots(&self) -> usize {
         self.comps.iter().filter(|&&c| FULL[c] == "..").count()
@@ -53,6 +70,8 @@ impl NameSpec {
     pub fn class(&self) -> &'static str {
         if self.prefix == 1 || self.prefix == 2 {
             "rooted entry name (leading separator)"
+        } else if self.prefix == P_RUN {
+            "entry name with a run of two or more leading separators"
         } else if self.dotdots() > 0 {
             "entry name with parent-directory (..) components"
         } else if self.drive() {
@@ -74,19 +93,24 @@ impl NameSpec {
         let psep = match self.prefix {
             1 | 4 => Some('\\'),
             2 | 5 => Some('/'),
+            P_RUN | P_DRIVE_RUN => Some(SEPS[*self.lead.last().expect("run prefix without run")]),
             _ => None,
         };
         if self.drive() {
             s.push_str("C:");
         }
         if let Some(ps) = psep {
+            // what stands before the first anchor component: one separator, or the whole run
+            let head = if self.lead.is_empty() { ps.to_string() } else { self.lead_text() };
+            s.push_str(&head);
             if symbolic {
-                s.push(ps);
                 s.push_str(anchor);
             } else {
                 // anchor is an absolute unix path: /dev/shm/...; re-spell it with the prefix separator
-                for part in anchor.split('/').filter(|p| !p.is_empty()) {
-                    s.push(ps);
+                for (k, part) in anchor.split('/').filter(|p| !p.is_empty()).enumerate() {
+                    if k > 0 {
+                        s.push(ps);
+                    }
                     s.push_str(part);
                 }
             }
@@ -119,7 +143,7 @@ pub fn enumerate(full_n: usize, core_n: usize) -> Vec<NameSpec> {
         let alpha: Vec<usize> = if n <= full_n { (0..FULL.len()).collect() } else { (0..CORE.len()).map(core_index).collect() };
         let a = alpha.len() as u64;
         let bodies = a.pow(n as u32) * 2u64.pow(n as u32 - 1);
-        for prefix in 0..PREFIXES.len() {
+        for prefix in 0..BASE_PREFIXES {
             for b in 0..bodies {
                 let mut x = b;
                 let mut comps = Vec::with_capacity(n);
@@ -132,7 +156,7 @@ pub fn enumerate(full_n: usize, core_n: usize) -> Vec<NameSpec> {
                     seps.push((x % 2) as usize);
                     x /= 2;
                 }
-                let spec = NameSpec { prefix, comps, seps };
+                let spec = NameSpec { prefix, lead: vec![], comps, seps };
                 // an empty first component is a leading separator: only allowed behind the anchor
                 if !spec.rooted() && FULL[spec.comps[0]].is_empty() {
                     continue;
@@ -160,7 +184,70 @@ pub fn climbers(min_k: usize, max_k: usize) -> Vec<NameSpec> {
             }
             comps.push(leaf);
             for sep in 0..SEPS.len() {
-                out.push(NameSpec { prefix: 0, comps: comps.clone(), seps: vec![sep; k] });
+                out.push(NameSpec { prefix: 0, lead: vec![], comps: comps.clone(), seps: vec![sep; k] });
+            }
+        }
+    }
+    out
+}
+
+/// Bound of the leading-separator-run names.
+#[derive(Clone, Copy, Debug)]
+pub struct RunBound {
+    /// bodies of 1..=full_n components over FULL
+    pub full_n: usize,
+    /// bodies of full_n+1..=core_n components over CORE
+    pub core_n: usize,
+    /// the `C:` + run prefix is enumerated for bodies of at most this many components
+    pub drive_n: usize,
+    /// separators inside the body: every combination (true) or all equal to the last separator of the run (false)
+    pub free_gaps: bool,
+}
+
+/// every leading run: length 2 then 3, every mix of the two separators (4 + 8 = 12)
+pub fn runs() -> Vec<Vec<usize>> {
+    let mut out = vec![];
+    for &len in RUN_LENS.iter() {
+        for bits in 0..(1usize << len) {
+            out.push((0..len).map(|j| bits >> j & 1).collect());
+        }
+    }
+    out
+}
+
+/// Names that start with a run of 2 or 3 separators (every mix), optionally behind `C:`, followed by
+/// the anchor (absolute inside the jail) and a body.  Ordered simplest first: components, then
+/// drive, then run (length, mix), then body.
+pub fn lead_runs(b: RunBound) -> Vec<NameSpec> {
+    let mut out = vec![];
+    for n in 1..=b.core_n.max(b.full_n) {
+        let alpha: Vec<usize> = if n <= b.full_n { (0..FULL.len()).collect() } else { (0..CORE.len()).map(core_index).collect() };
+        let a = alpha.len() as u64;
+        let gaps = if b.free_gaps { 2u64.pow(n as u32 - 1) } else { 1 };
+        let bodies = a.pow(n as u32) * gaps;
+        for prefix in [P_RUN, P_DRIVE_RUN] {
+            if prefix == P_DRIVE_RUN && n > b.drive_n {
+                continue;
+            }
+            for run in runs() {
+                for body in 0..bodies {
+                    let mut x = body;
+                    let mut comps = Vec::with_capacity(n);
+                    for _ in 0..n {
+                        comps.push(alpha[(x % a) as usize]);
+                        x /= a;
+                    }
+                    let mut seps = Vec::with_capacity(n - 1);
+                    for _ in 1..n {
+                        if b.free_gaps {
+                            seps.push((x % 2) as usize);
+                            x /= 2;
+                        } else {
+                            seps.push(*run.last().unwrap());
+                        }
+                    }
+                    out.push(NameSpec { prefix, lead: run.clone(), comps, seps });
+                }
             }
         }
     }
